@@ -1,6 +1,7 @@
 ---------------------------- MODULE PopulatorMC ----------------------------
-(* Enumerated scenario families for Populator (cfg: Scenarios <- Sc_...).   *)
-(* A scenario: [files, empty, cn, ct, calls]; a call: [add, n, t] with the  *)
+(* Enumerated scenario families for Populator (cfg: Scenarios <- Sc_...,     *)
+(* a sequence of sets of scenarios).                                        *)
+(* A scenario: [files, dirs, cn, ct, calls] ; a call: [add, n, t] with the  *)
 (* rules added before it and the per-call options ("T" / "F" / "N" = None). *)
 EXTENDS Populator
 
@@ -20,7 +21,8 @@ DFiles == {dx, dxt, dxp, dyg, dsxt}            \* where keys clash under trim_ex
 dt == <<D, T>>    dtt == <<D, TT>>    dst == <<D, S, T>>
 
 UpTo(Set, n) == {x \in SUBSET Set : Cardinality(x) <= n}
-Tree(F, Em) == [files |-> F, empty |-> Em]
+\* a tree from its regular files and its empty directories
+Tree(F, Em) == [files |-> F, dirs |-> (UNION {Prefixes(Front(p)) : p \in F} \cup UNION {Prefixes(p) : p \in Em}) \ {<<>>}]
 RichTrees == {Tree({dx, dxt, dxp}, {}), Tree({dxt, dxp, dyg, dsxt}, {dt}), Tree({dxt, dszt, dsuxt, ext}, {dtt}),
               Tree({dx, dsdx, dyg, ff}, {dst}), Tree({dxt, dxp, dsxt, dszt, esyg}, {dt, dtt}),
               Tree({}, {RD}), Tree({}, {dt, RE}), Tree({dsuxt}, {dst, dtt}), Tree({dx, dxt, dxp, dsxt, dsdx}, {})}
@@ -37,7 +39,7 @@ MM == <<<<"m">>>>                               \* never exists
 ExtSets == {{}, {"txt"}, {"txt", "png"}, {"gz"}}
 Protos1 == {P(d, x) : d \in {RD, DS, RE}, x \in ExtSets} \cup {P(FF, {}), P(MM, {})}
 PC(add, n, t) == [add |-> add, n |-> n, t |-> t]
-Scn(tree, cn, ct, calls) == [files |-> tree.files, empty |-> tree.empty, cn |-> cn, ct |-> ct, calls |-> calls]
+Scn(tree, cn, ct, calls) == [files |-> tree.files, dirs |-> tree.dirs, cn |-> cn, ct |-> ct, calls |-> calls]
 BoolOpt == {"T", "F"}
 Opt == {"T", "F", "N"}
 
@@ -48,31 +50,33 @@ Fam1(Trees) == {Scn(tr, FALSE, FALSE, <<PC(Mk(<<p>>, 0), n, t)>>) : tr \in Trees
 Lists2 == {<<P(RD, {})>>, <<P(RD, {}), P(RD, {"txt"})>>, <<P(RD, {"txt"}), P(RD, {})>>, <<P(RD, {}), P(DS, {})>>,
            <<P(RD, {"txt", "png"}), P(RD, {"gz"})>>}
 Adds2 == {<<>>, <<P(RD, {"txt"})>>}
-Fam2(Trees, Lists, Adds) ==
+Fam2a(Trees, Lists) ==
     {Scn(tr, FALSE, TRUE, <<PC(Mk(l, 0), n1, t1)>>) : tr \in Trees, l \in Lists, n1 \in BoolOpt, t1 \in BoolOpt}
-    \cup {Scn(tr, TRUE, FALSE, <<PC(Mk(l, 0), n1, t1), PC(Mk(a, 2), n2, t2)>>)
-            : tr \in Trees, l \in Lists, a \in Adds, n1 \in BoolOpt, t1 \in BoolOpt, n2 \in BoolOpt, t2 \in BoolOpt}
+Fam2b(Trees, Lists, Adds) ==
+    {Scn(tr, TRUE, FALSE, <<PC(Mk(l, 0), n1, t1), PC(Mk(a, 2), n2, t2)>>)
+       : tr \in Trees, l \in Lists, a \in Adds, n1 \in BoolOpt, t1 \in BoolOpt, n2 \in BoolOpt, t2 \in BoolOpt}
 
 \* 3. rejected and missing rule paths at every position of the rule list, partial population before the error
 Protos3 == {P(RD, {}), P(FF, {}), P(MM, {}), P(RE, {"txt"})}
 Lists3(n) == UNION {[1..m -> Protos3] : m \in 0..n}
 Trees3 == {Tree({ff}, {}), Tree({ff, dxt}, {}), Tree({ff, dxt, ext}, {dt}), Tree({dxt}, {})}
-Fam3(n) == {Scn(tr, TRUE, FALSE, <<PC(Mk(l, 0), "N", "N")>>) : tr \in Trees3, l \in Lists3(n)}
-           \cup {Scn(tr, TRUE, FALSE, <<PC(Mk(l, 0), "N", "N"), PC(Mk(a, 1), "N", "T")>>)
-                   : tr \in Trees3, l \in Lists3(n), a \in {<<>>, <<P(FF, {})>>}}
+Fam3a(n) == {Scn(tr, TRUE, FALSE, <<PC(Mk(l, 0), "N", "N")>>) : tr \in Trees3, l \in Lists3(n)}
+Fam3b(n) == {Scn(tr, TRUE, FALSE, <<PC(Mk(l, 0), "N", "N"), PC(Mk(a, 1), "N", "T")>>)
+               : tr \in Trees3, l \in Lists3(n), a \in {<<>>, <<P(FF, {})>>}}
 
 \* 4. None falls back to the constructor: the whole constructor x per-call matrix
 Trees4 == {Tree({dxt, dxp}, {}), Tree({dx, dxt, dsxt}, {}), Tree({dyg, dxt}, {dt})}
 Lists4 == {<<P(RD, {})>>, <<P(RD, {}), P(RD, {"txt"})>>}
-Fam4 == {Scn(tr, cn, ct, <<PC(Mk(l, 0), n, t)>>) : tr \in Trees4, l \in Lists4, cn \in BOOLEAN, ct \in BOOLEAN, n \in Opt, t \in Opt}
-        \cup {Scn(tr, cn, ct, <<PC(Mk(l, 0), n, t), PC(<<>>, n, t)>>)
-                : tr \in Trees4, l \in Lists4, cn \in BOOLEAN, ct \in BOOLEAN, n \in Opt, t \in Opt}
+Fam4a == {Scn(tr, cn, ct, <<PC(Mk(l, 0), n, t)>>) : tr \in Trees4, l \in Lists4, cn \in BOOLEAN, ct \in BOOLEAN, n \in Opt, t \in Opt}
+Fam4b == {Scn(tr, cn, ct, <<PC(Mk(l, 0), n, t), PC(<<>>, n, t)>>)
+            : tr \in Trees4, l \in Lists4, cn \in BOOLEAN, ct \in BOOLEAN, n \in Opt, t \in Opt}
 
 Empties == {{}, {dt}, {dtt}, {dst}}
 TreesQ == {Tree(F, {}) : F \in UpTo(FileU, 2)} \cup RichTrees
 TreesC == {Tree(F, {}) : F \in UpTo(DFiles, 3) \ {{}}}
 
-Sc_quick == Fam1(TreesQ) \cup Fam2(TreesC, Lists2, Adds2) \cup Fam3(2) \cup Fam4
-Sc_tiny == Fam2({Tree({dxt, dxp}, {}), Tree({dxt, dyg}, {})}, Lists2, Adds2) \cup Fam3(1)     \* switch runs
-
+\* Scenarios is a *sequence* of families: TLC's union of two enumerated sets is quadratic in their size
+Sc_quick == <<Fam1(TreesQ), Fam2a(TreesC, Lists2), Fam2b(TreesC, Lists2, Adds2), Fam3a(2), Fam3b(2), Fam4a, Fam4b>>
+TreesTiny == {Tree({dxt, dxp}, {}), Tree({dxt, dyg}, {})}
+Sc_tiny == <<Fam2a(TreesTiny, Lists2), Fam2b(TreesTiny, Lists2, Adds2), Fam3a(1), Fam3b(1)>>     \* switch runs
 =============================================================================
